@@ -7,4 +7,9 @@ import DynetxProofs.Lemmas.Core
 import DynetxProofs.Spec
 import DynetxProofs.Lemmas.History
 import DynetxProofs.Lemmas.HistoryMore
+import DynetxProofs.Lemmas.Snaps
+import DynetxProofs.Lemmas.Counts
+import DynetxProofs.C18
+import DynetxProofs.Lemmas.CountsHistory
+import DynetxProofs.C14
 import DynetxProofs.Properties
